@@ -152,6 +152,37 @@ class IntVar:
         return NotImplemented
 
 
+def _linearize(left, right):
+    """Normalise left - right into ([(var, coef), ...], const), one non-zero coefficient per variable."""
+    terms: dict[str, list] = {}
+    const = 0
+
+    def visit(e, mult):
+        nonlocal const
+        op = e[0] if isinstance(e, tuple) and len(e) == 3 else None
+        if isinstance(e, IntVar):
+            terms.setdefault(e.name, [e, 0])[1] += mult
+        elif isinstance(e, int):
+            const += mult * e
+        elif op == "add":
+            visit(e[1], mult)
+            visit(e[2], mult)
+        elif op == "sub":
+            visit(e[1], mult)
+            visit(e[2], -mult)
+        elif op == "rsub":  # (rsub, var, const) stands for const - var
+            visit(e[2], mult)
+            visit(e[1], -mult)
+        elif op == "mul" and isinstance(e[2], int):
+            visit(e[1], mult * e[2])
+        else:
+            raise ValueError(f"Unsupported expression in constraint: {e!r}")
+
+    visit(left, 1)
+    visit(right, -1)
+    return [(var, coef) for var, coef in terms.values() if coef != 0], const
+
+
 class Model:
     def __init__(self):
         self._next_bool = 1
@@ -191,23 +222,6 @@ class Model:
 
     def add(self, constraint):
         self._constraints.append(constraint)
-
-    def _flatten_sum(self, expr):
-        terms = []
-        const = 0
-
-        def flatten(e):
-            nonlocal const
-            if isinstance(e, IntVar):
-                terms.append(e)
-            elif isinstance(e, int):
-                const += e
-            elif isinstance(e, tuple) and e[0] == "add":
-                flatten(e[1])
-                flatten(e[2])
-
-        flatten(expr)
-        return terms, const
 
     def sum_eq(self, variables, target):
         return ("sum_eq", tuple(variables), target)
@@ -295,18 +309,19 @@ class Model:
         iterations = [0]  # Use list for mutation in nested function
 
         def backtrack(domains: dict[str, set[int]]) -> bool:
+            """Returns True when the search below this node can stop."""
             iterations[0] += 1
 
-            # Check if all assigned
-            unassigned = [n for n in domains if len(domains[n]) > 1 and not n.startswith("_")]
-            if not unassigned:
-                # Found solution
+            # Every variable must be fixed (and so checked by propagation) before a solution is accepted
+            open_vars = [n for n in domains if len(domains[n]) > 1]
+            if not open_vars:
                 sol = {n: next(iter(d)) for n, d in domains.items() if not n.startswith("_")}
                 solutions.append(sol)
-                return len(solutions) >= solution_limit
+                return True
 
-            # MRV: pick variable with smallest domain
-            var_name = min(unassigned, key=lambda n: len(domains[n]))
+            # MRV: pick variable with smallest domain, hidden ("_") variables last
+            unassigned = [n for n in open_vars if not n.startswith("_")]
+            var_name = min(unassigned or open_vars, key=lambda n: len(domains[n]))
             var_domain = list(domains[var_name])
 
             for val in var_domain:
@@ -315,8 +330,9 @@ class Model:
                 new_domains[var_name] = {val}
 
                 # Propagate
-                if self._propagate(new_domains):
-                    if backtrack(new_domains):
+                if self._propagate(new_domains) and backtrack(new_domains):
+                    # One completion of the hidden variables is enough per solution
+                    if not unassigned or len(solutions) >= solution_limit:
                         return True
 
             return False
@@ -350,10 +366,7 @@ class Model:
 
     def _propagate_constraint(self, constraint, domains: dict[str, set[int]]) -> bool:
         """Propagate a single constraint. Returns False if inconsistent."""
-        if not isinstance(constraint, tuple):
-            return True
-
-        kind = constraint[0]
+        kind = constraint[0] if isinstance(constraint, tuple) and constraint else None
 
         if kind == "all_different":
             return self._propagate_all_different(constraint[1], domains)
@@ -389,6 +402,9 @@ class Model:
         elif kind == "ne_expr":
             return self._propagate_ne_expr(constraint[1], constraint[2], constraint[3], domains)
 
+        else:
+            raise ValueError(f"Unsupported constraint: {constraint!r}")
+
         return True
 
     def _propagate_all_different(self, variables, domains: dict[str, set[int]]) -> bool:
@@ -403,29 +419,34 @@ class Model:
         return True
 
     def _propagate_ne_expr(self, left, right, is_ne: bool, domains: dict[str, set[int]]) -> bool:
-        """Propagate (left_expr != right_expr) or (left_expr == right_expr)."""
-        left_terms, left_const = self._flatten_sum(left)
-        right_terms, right_const = self._flatten_sum(right)
+        """Propagate (left_expr != right_expr) or (left_expr == right_expr) as sum(coef * var) + const ?= 0."""
+        terms, const = _linearize(left, right)
+        coefs = {var.name: coef for var, coef in terms}
+        free = [n for n in coefs if len(domains[n]) > 1]
+        const += sum(c * next(iter(domains[n])) for n, c in coefs.items() if n not in free)
 
-        if len(left_terms) == 1 and len(right_terms) == 1:
-            var1, var2 = left_terms[0], right_terms[0]
-            offset = right_const - left_const
+        if not free:
+            return (const != 0) if is_ne else (const == 0)
 
-            if is_ne:
-                # var1 != var2 + offset
-                if len(domains[var1.name]) == 1:
-                    v1 = next(iter(domains[var1.name]))
-                    domains[var2.name].discard(v1 - offset)
-                if len(domains[var2.name]) == 1:
-                    v2 = next(iter(domains[var2.name]))
-                    domains[var1.name].discard(v2 + offset)
+        if is_ne:
+            # Only one variable left: remove the single value that makes both sides equal
+            if len(free) == 1 and const % coefs[free[0]] == 0:
+                domains[free[0]].discard(-const // coefs[free[0]])
+            return True
+
+        for name in free:
+            coef = coefs[name]
+            others = [n for n in free if n != name]
+            if len(others) == 1:
+                # Two variables left: keep values that have a support in the other domain
+                reachable = {-const - coefs[others[0]] * v for v in domains[others[0]]}
+                domains[name] = {v for v in domains[name] if coef * v in reachable}
             else:
-                # var1 == var2 + offset
-                valid1 = {v for v in domains[var1.name] if (v - offset) in domains[var2.name]}
-                valid2 = {v for v in domains[var2.name] if (v + offset) in domains[var1.name]}
-                if not valid1 or not valid2:
-                    return False
-                domains[var1.name] = valid1
-                domains[var2.name] = valid2
+                # Keep values for which the other terms can still reach the required total
+                lo = sum(min(coefs[n] * v for v in domains[n]) for n in others)
+                hi = sum(max(coefs[n] * v for v in domains[n]) for n in others)
+                domains[name] = {v for v in domains[name] if lo <= -const - coef * v <= hi}
+            if not domains[name]:
+                return False
 
         return True
